@@ -1236,17 +1236,16 @@ Proof. intros H. symmetry. eapply mapM_mapM_lens. exact H. Qed.
 Lemma list_assemble op rec fuel n1 n2 pieces1 pieces2 (R : content -> content) rows bound :
   jag n1 = true -> jag n2 = true -> to_list n1 = Ok (concat pieces1) -> to_list n2 = Ok (concat pieces2) ->
   map zlen pieces1 = map zlen pieces2 ->
-  is_option_node n1 = false -> is_option_node n2 = false ->
   (csize n1 + csize n2 < bound)%nat -> step_ok op rec fuel bound ->
   (forall out, to_list (R out) = do outvs <- to_list out; rmap (map VList) (cut outvs (offsets_from 0 (map zlen pieces1)))) ->
-  (forall out, jag out = true -> is_option_node out = false -> jag (R out) = true /\ is_option_node (R out) = false) ->
+  (forall out, jag out = true -> jag (R out) = true /\ is_option_node (R out) = false) ->
   mapM (spec_v op false (S fuel)) rows =
     mapM (fun p : list value * list value =>
             rmap VList (mapM (spec_v op false fuel) (rows2 (type_of n1) (type_of n2) (fst p) (snd p)))) (zip pieces1 pieces2) ->
   agrees (obs (do out <- rec [MC n1; MC n2]; Ok (R out))) (mapM (spec_v op false (S fuel)) rows) /\
   (forall out, (do out <- rec [MC n1; MC n2]; Ok (R out)) = Ok out -> jag out = true /\ is_option_node out = false).
 Proof.
-  intros J1 J2 L1 L2 Hlens O1 O2 Hsz IH HR HRj Hspec.
+  intros J1 J2 L1 L2 Hlens Hsz IH HR HRj Hspec.
   assert (Hzc : zlen (concat pieces1) = zlen (concat pieces2)).
   { clear -Hlens. revert pieces2 Hlens. induction pieces1 as [|a p1 IHp]; intros [|b p2] H; try discriminate; [reflexivity|].
     cbn [map] in H. inversion H. cbn [concat]. rewrite !zlen_app. rewrite (IHp p2) by assumption. lia. }
@@ -1267,7 +1266,7 @@ Proof.
     + destruct IHa as [-> IHa]. split; [reflexivity|]. unfold obs in *.
       destruct (rec [MC n1; MC n2]) as [out|e']; cbn [bind] in *; [|exact IHa]. now rewrite HR, IHa.
   - intros out Hd. apply bind_Ok in Hd as (o & Hrec & Hd). inversion Hd; subst out.
-    destruct (IHj o Hrec) as [Jo Oo]. rewrite O1, O2 in Oo. now apply HRj.
+    destruct (IHj o Hrec) as [Jo Oo]. now apply HRj.
 Qed.
 
 (* ------------------------------------------------------------------ rows of the three shapes of a list step *)
@@ -1354,4 +1353,136 @@ Lemma zip_lens_in {A B} (l1 : list (list A)) : forall (l2 : list (list B)) a b,
 Proof.
   induction l1 as [|x l1 IH]; intros [|y l2] a b H Hin; try contradiction. cbn [map] in H. inversion H.
   destruct Hin as [E|Hin]; [inversion E; subst; lia|eapply IH; eassumption].
+Qed.
+
+(* ------------------------------------------------------------------ the general path (compact offsets of the first list) *)
+Lemma lists_differ {A B} (l1 : list (list A)) : forall (l2 : list (list B)),
+  length l1 = length l2 -> map zlen l1 <> map zlen l2 ->
+  exists i a b, get l1 i = Ok a /\ get l2 i = Ok b /\ zlen b <> zlen a.
+Proof.
+  induction l1 as [|x l1 IH]; intros [|y l2] H Hne; try discriminate; [now contradiction Hne|].
+  destruct (Z.eq_dec (zlen y) (zlen x)) as [E|E].
+  - destruct (IH l2) as (i & a & b & Ha & Hb & Hab); [cbn in H; lia|intros E'; apply Hne; cbn [map]; congruence|].
+    pose proof (get_range _ _ _ Ha). exists (i + 1), a, b. rewrite !get_cons_S by lia. auto.
+  - exists 0, x, y. auto.
+Qed.
+Lemma mapM_has_err {A B} (f : A -> res B) l x e0 : In x l -> f x = Err e0 -> exists e, mapM f l = Err e.
+Proof.
+  induction l as [|y l IH]; [contradiction|]. intros [->|Hin] Hx; rewrite mapM_cons.
+  - rewrite Hx. eauto.
+  - destruct (f y); cbn [bind]; [|eauto]. destruct (IH Hin Hx) as [e ->]. eauto.
+Qed.
+Lemma get_In {A} (l : list A) i x : get l i = Ok x -> In x l.
+Proof. unfold get. destruct (i <? 0); [discriminate|]. destruct (nth_error l (Z.to_nat i)) eqn:E; [|discriminate]. intros H; inversion H; subst. eapply nth_error_In; eassumption. Qed.
+
+Lemma mapM_zip_rep_each {A B C} (F : list A * list B -> res C) (ls : list (list A)) : forall (vs : list B),
+  mapM F (zip ls (rep_each vs (map zlen ls))) = mapM (fun p => F (fst p, repeat (snd p) (length (fst p)))) (zip ls vs).
+Proof.
+  induction ls as [|l ls IH]; intros [|v vs]; try reflexivity. unfold rep_each in *. cbn [map zip fst snd mapM].
+  rewrite IH. now replace (Z.to_nat (zlen l)) with (length l) by (unfold zlen; lia).
+Qed.
+Lemma mapM_zip_rep_each_l {A B C} (F : list B * list A -> res C) (ls : list (list A)) : forall (vs : list B),
+  mapM F (zip (rep_each vs (map zlen ls)) ls) = mapM (fun p => F (repeat (fst p) (length (snd p)), snd p)) (zip vs ls).
+Proof.
+  induction ls as [|l ls IH]; intros [|v vs]; try reflexivity. unfold rep_each in *. cbn [map zip fst snd mapM].
+  rewrite IH. now replace (Z.to_nat (zlen l)) with (length l) by (unfold zlen; lia).
+Qed.
+
+Lemma jag_nonlist_leaf c : jag c = true -> is_option_node c = false -> is_list_node c = false ->
+  is_listT (type_of c) = false /\ is_optT (type_of c) = false.
+Proof. intros Hj Ho Hl. destruct (type_of_jag c Hj) as (_ & H1 & H2). rewrite H1, H2. auto. Qed.
+
+Lemma inner_types c : jag c = true -> is_list_node c = true ->
+  elemT (type_of c) = type_of (inner c) /\ is_listT (type_of c) = true /\ is_optT (type_of c) = false.
+Proof. destruct c; try discriminate; intros _ _; cbn; auto. Qed.
+
+Lemma gen_case op rec fuel c1 c2 vs1 vs2 :
+  jag c1 = true -> jag c2 = true -> to_list c1 = Ok vs1 -> to_list c2 = Ok vs2 -> zlen vs1 = zlen vs2 ->
+  is_option_node c1 = false -> is_option_node c2 = false -> is_list_node c1 || is_list_node c2 = true ->
+  (csize c1 + csize c2 <= fuel)%nat ->
+  step_ok op rec fuel (csize c1 + csize c2) ->
+  agrees (obs (gen_branch rec [MC c1; MC c2]))
+         (mapM (spec_v op false (S fuel)) (rows2 (type_of c1) (type_of c2) vs1 vs2)) /\
+  (forall out, gen_branch rec [MC c1; MC c2] = Ok out -> jag out = true /\ is_option_node out = false).
+Proof.
+  intros H1 H2 L1 L2 Hz O1 O2 Hl Hfuel IH.
+  destruct (jag_nodes c1 H1) as (_ & _ & _ & _ & _ & R1 & _ & _). destruct (jag_nodes c2 H2) as (_ & _ & _ & _ & _ & R2 & _ & _).
+  destruct (type_of_jag c1 H1) as (JT1 & OT1 & LT1). destruct (type_of_jag c2 H2) as (JT2 & OT2 & LT2).
+  assert (HR : forall offs out, to_list (ListOffset I64 offs out) = do outvs <- to_list out; rmap (map VList) (cut outvs offs)) by reflexivity.
+  assert (HRj : forall offs out, jag out = true ->
+                                 jag (ListOffset I64 offs out) = true /\ is_option_node (ListOffset I64 offs out) = false) by (intros; cbn; auto).
+  unfold gen_branch. cbn [contents_of flat_map app filter]. rewrite R1, R2. cbn [negb]. rewrite !andb_true_r.
+  destruct (is_list_node c1) eqn:N1.
+  - (* the first input is the first list *)
+    destruct (list_view c1 vs1 H1 N1 L1) as (vs1' & ls1 & Li1 & Hc1 & -> & Ji1 & S1 & T1 & Zs1 & Zl1).
+    destruct (inner_types c1 H1 N1) as (E1 & LT1' & _).
+    rewrite (compact_offsets_jag c1 vs1' ls1 H1 N1 Hc1 Zl1). cbn [bind]. unfold map_c. cbn [mapM]. rewrite N1.
+    destruct (bto_list_ok c1 vs1' ls1 H1 N1 Li1 Ji1 Hc1 Zs1 Zl1) as (n1 & B1 & Jn1 & Ln1 & Tn1 & Sn1 & _ & _). rewrite B1. cbn [rmap bind].
+    destruct (is_list_node c2) eqn:N2.
+    + (* list with list *)
+      destruct (list_view c2 vs2 H2 N2 L2) as (vs2' & ls2 & Li2 & Hc2 & -> & Ji2 & S2 & T2 & Zs2 & Zl2).
+      destruct (inner_types c2 H2 N2) as (E2 & LT2' & _).
+      rewrite !zlen_map in Hz.
+      destruct (list_eq_dec Z.eq_dec (map zlen ls1) (map zlen ls2)) as [Elens|Nlens].
+      * destruct (bto_list_ok c2 vs2' ls2 H2 N2 Li2 Ji2 Hc2 Zs2 Zl2) as (n2 & B2 & Jn2 & Ln2 & Tn2 & Sn2 & _ & _).
+        rewrite Elens, B2. cbn [rmap bind]. rewrite <- Elens.
+        apply (list_assemble op rec fuel n1 n2 ls1 ls2 (ListOffset I64 (offsets_from 0 (map zlen ls1)))); try assumption.
+        -- lia.
+        -- apply HR.
+        -- apply HRj.
+        -- unfold rows2 at 1. rewrite zip_map, map_map, mapM_map. apply mapM_ext_in. intros [a b] Hin. cbn [fst snd].
+           rewrite spec_row_LL by assumption. rewrite (zip_lens_in ls1 ls2 a b Elens Hin), Z.eqb_refl.
+           now rewrite Tn1, Tn2, E1, E2.
+      * (* some list of the second input has another length: an error on both sides *)
+        destruct (lists_differ ls1 ls2) as (i & a & b & Ga & Gb & Hab); [unfold zlen in Hz; lia|exact Nlens|].
+        assert (Gk : get (map zlen ls1) i = Ok (zlen a)) by (rewrite get_map, Ga; reflexivity).
+        rewrite (bto_list_err c2 vs2' ls2 (map zlen ls1) i b (zlen a) H2 N2 Hc2 Zs2 Zl2); try assumption.
+        2:{ rewrite zlen_map. rewrite <- (to_list_len _ _ L2), zlen_map. lia. }
+        cbn [bind rmap obs]. split; [|discriminate].
+        set (rows := rows2 (type_of c1) (type_of c2) (map VList ls1) (map VList ls2)).
+        assert (Hrow : In [(type_of c1, VList a); (type_of c2, VList b)] rows).
+        { unfold rows, rows2. apply in_map_iff. exists (VList a, VList b). split; [reflexivity|].
+          apply (get_In _ i). rewrite get_zip, !get_map, Ga, Gb. reflexivity. }
+        assert (Hbad : spec_v op false (S fuel) [(type_of c1, VList a); (type_of c2, VList b)] = Err EValue).
+        { rewrite spec_row_LL by assumption. destruct (Z.eqb_spec (zlen b) (zlen a)); [contradiction|reflexivity]. }
+        destruct (mapM_has_err _ _ _ _ Hrow Hbad) as [e He]. rewrite He. cbn [agrees]. split; [|reflexivity].
+        apply mapM_Err in He as (row & Hin & Hrow'). unfold rows, rows2 in Hin. apply in_map_iff in Hin as ([x y] & <- & _).
+        eapply (spec_err_value op (S fuel)); [exact JT1|exact JT2| |exact Hrow'].
+        rewrite (tsize_jag c1 H1), (tsize_jag c2 H2). lia.
+    + (* list with a shallower input: tree-left *)
+      destruct (jag_nonlist_leaf c2 H2 O2 N2) as [LT2' OT2'].
+      assert (Hcz : zlen (map zlen ls1) = zlen vs2) by (rewrite zlen_map in *; lia).
+      destruct (bto_leaf_ok c2 vs2 (map zlen ls1) H2 N2 L2 Hcz (zlen_all_nonneg ls1)) as (n2 & B2 & Jn2 & Ln2 & Tn2 & Sn2 & _ & _).
+      rewrite B2. cbn [rmap bind].
+      apply (list_assemble op rec fuel n1 n2 ls1 (rep_each vs2 (map zlen ls1)) (ListOffset I64 (offsets_from 0 (map zlen ls1)))); try assumption.
+      * symmetry. apply zlen_rep_each; [apply zlen_all_nonneg|]. unfold zlen in Hcz. lia.
+      * lia.
+      * apply HR.
+      * apply HRj.
+      * rewrite mapM_zip_rep_each. unfold rows2 at 1.
+        replace vs2 with (map (fun v : value => v) vs2) at 1 by apply map_id.
+        rewrite zip_map, map_map, mapM_map. apply mapM_ext_in. intros [a y] Hin. cbn [fst snd].
+        rewrite spec_row_LN by assumption. now rewrite Tn1, Tn2, E1.
+  - (* the second input is the first list; the first one is shallower *)
+    cbn [orb] in Hl. rename Hl into N2.
+    destruct (list_view c2 vs2 H2 N2 L2) as (vs2' & ls2 & Li2 & Hc2 & -> & Ji2 & S2 & T2 & Zs2 & Zl2).
+    destruct (inner_types c2 H2 N2) as (E2 & LT2' & _).
+    destruct (jag_nonlist_leaf c1 H1 O1 N1) as [LT1' OT1'].
+    rewrite N2. rewrite (compact_offsets_jag c2 vs2' ls2 H2 N2 Hc2 Zl2). cbn [bind]. unfold map_c. cbn [mapM]. rewrite N1, N2.
+    assert (Hcz : zlen (map zlen ls2) = zlen vs1) by (rewrite zlen_map in *; lia).
+    destruct (bto_leaf_ok c1 vs1 (map zlen ls2) H1 N1 L1 Hcz (zlen_all_nonneg ls2)) as (n1 & B1 & Jn1 & Ln1 & Tn1 & Sn1 & _ & _).
+    destruct (bto_list_ok c2 vs2' ls2 H2 N2 Li2 Ji2 Hc2 Zs2 Zl2) as (n2 & B2 & Jn2 & Ln2 & Tn2 & Sn2 & _ & _).
+    rewrite B1, B2. cbn [rmap bind].
+    assert (Hlens : map zlen (rep_each vs1 (map zlen ls2)) = map zlen ls2).
+    { apply zlen_rep_each; [apply zlen_all_nonneg|]. unfold zlen in Hcz. lia. }
+    rewrite <- Hlens at 1.
+    apply (list_assemble op rec fuel n1 n2 (rep_each vs1 (map zlen ls2)) ls2
+             (ListOffset I64 (offsets_from 0 (map zlen (rep_each vs1 (map zlen ls2)))))); try assumption.
+    + lia.
+    + apply HR.
+    + apply HRj.
+    + rewrite mapM_zip_rep_each_l. unfold rows2 at 1.
+      replace vs1 with (map (fun v : value => v) vs1) at 1 by apply map_id.
+      rewrite zip_map, map_map, mapM_map. apply mapM_ext_in. intros [x b] Hin. cbn [fst snd].
+      rewrite spec_row_NL by assumption. now rewrite Tn1, Tn2, E2.
 Qed.
